@@ -362,7 +362,7 @@ impl<'a> Lexer<'a> {
                 } else {
                     self.column += 1;
                 }
-                self.position += 1;
+                self.position += ch.len_utf8();
             } else {
                 break;
             }
@@ -374,19 +374,18 @@ impl<'a> Lexer<'a> {
     }
 
     fn peek_char(&self) -> char {
-        if self.position + 1 < self.input.len() {
-            self.input[self.position + 1..]
-                .chars()
-                .next()
-                .unwrap_or('\0')
-        } else {
-            '\0'
-        }
+        // The character after the current one (`position` is a byte offset,
+        // so step over the whole current character, not one byte).
+        let mut chars = self.input[self.position..].chars();
+        chars.next();
+        chars.next().unwrap_or('\0')
     }
 
     fn advance(&mut self) {
-        if self.position < self.input.len() {
-            self.position += 1;
+        // Advance by one character; `position` must stay on a char boundary
+        // because it is used to slice `input`.
+        if let Some(ch) = self.input[self.position..].chars().next() {
+            self.position += ch.len_utf8();
             self.column += 1;
         }
     }
